@@ -207,3 +207,9 @@ Theorem C13_source_impl_methods :
   methods_of "Debug for GenericArray<T,N>" = Some ["fmt"].
 Proof. repeat split. Qed.
 
+
+(* each of these impls exists for exactly the element types that have the trait (regenerated bounds) *)
+Theorem C13_source_impl_bounds :
+  Forall (fun tr => bounds_of (tr ++ " for GenericArray<T,N>") = Some ["N:ArrayLength"; ("T:" ++ tr)%string])
+         ["Default"; "Clone"; "PartialEq"; "Eq"; "PartialOrd"; "Ord"; "Debug"; "Hash"].
+Proof. exact tie_structural_bounds. Qed.
